@@ -66,7 +66,7 @@ type series struct {
 }
 
 type snap struct {
-	Series   map[string]*series // by instrument (stream) name
+	Series   map[string]*series // by stream name (streamName: bare instrument name, or the qualified identity of a twin)
 	Problems []string           // structural problems: kind\x00message
 	Slot     map[string][2]int  // where the metric sat in the output: scope index, metric index
 }
@@ -137,10 +137,17 @@ func expoPoints[N int64 | float64](s *snap, name string, se *series, dps []metri
 	}
 }
 
-func takeSnap(rm *metricdata.ResourceMetrics) *snap {
+func (w *world) takeSnap(rm *metricdata.ResourceMetrics) *snap {
 	s := &snap{Series: map[string]*series{}, Slot: map[string][2]int{}}
 	for si, sm := range rm.ScopeMetrics {
+		scope, ok := w.scopeIdx[scopeID(ScopeSpec{Name: sm.Scope.Name, Version: sm.Scope.Version, Schema: sm.Scope.SchemaURL, Attrs: fromSet(sm.Scope.Attributes)})]
+		if !ok {
+			s.problem("unknown_scope", "output names scope %+v, which no meter was obtained for", sm.Scope)
+			continue
+		}
 		for mi, m := range sm.Metrics {
+			// the stream's full identity; the fixed instruments go by their bare name
+			m.Name = streamName(m.Name, scope, m.Unit, m.Description)
 			s.Slot[m.Name] = [2]int{si, mi}
 			switch d := m.Data.(type) {
 			case metricdata.Sum[int64]:
@@ -165,6 +172,71 @@ func takeSnap(rm *metricdata.ResourceMetrics) *snap {
 		}
 	}
 	return s
+}
+
+// measOpts spells "attribute set #set" as measurement options. Spelling 0 is
+// WithAttributeSet for a synchronous measurement and WithAttributes for an
+// observation, 1 the other of the two, 2 the attributes split over two
+// options, 3 a first option that gives the first key another value and a
+// second option that overrides it (metric.WithAttributeSet: "merged together
+// in the order they are passed. Attributes with duplicate keys will use the
+// last value passed").
+func measOpts(set, sp int, sync bool) []metric.MeasurementOption {
+	kvs := setPool[set]
+	asSet := func(kvs []attribute.KeyValue) metric.MeasurementOption {
+		return metric.WithAttributeSet(attribute.NewSet(append([]attribute.KeyValue{}, kvs...)...))
+	}
+	asList := func(kvs []attribute.KeyValue) metric.MeasurementOption {
+		return metric.WithAttributes(append(make([]attribute.KeyValue, 0, len(kvs)+2), kvs...)...)
+	}
+	switch sp {
+	case 1:
+		sync = !sync
+	case 2:
+		h := (len(kvs) + 1) / 2
+		return []metric.MeasurementOption{asList(kvs[:h]), asSet(kvs[h:])}
+	case 3:
+		if len(kvs) == 0 {
+			return []metric.MeasurementOption{asList(nil), asSet(nil)}
+		}
+		return []metric.MeasurementOption{asList([]attribute.KeyValue{attribute.String(string(kvs[0].Key), "overridden")}), asSet(kvs)}
+	}
+	if sync {
+		return []metric.MeasurementOption{asSet(kvs)}
+	}
+	return []metric.MeasurementOption{asList(kvs)}
+}
+
+func addOpts(set, sp int, sync bool) []metric.AddOption {
+	var out []metric.AddOption
+	for _, o := range measOpts(set, sp, sync) {
+		out = append(out, o)
+	}
+	return out
+}
+
+func recOpts(set, sp int, sync bool) []metric.RecordOption {
+	var out []metric.RecordOption
+	for _, o := range measOpts(set, sp, sync) {
+		out = append(out, o)
+	}
+	return out
+}
+
+func obsOpts(set, sp int, sync bool) []metric.ObserveOption {
+	var out []metric.ObserveOption
+	for _, o := range measOpts(set, sp, sync) {
+		out = append(out, o)
+	}
+	return out
+}
+
+func fromSet(set attribute.Set) []vk.KV {
+	var out []vk.KV
+	for _, kv := range set.ToSlice() {
+		out = append(out, vk.FromAttr(kv))
+	}
+	return out
 }
 
 // ---------------------------------------------------------------------
@@ -212,18 +284,23 @@ type world struct {
 	regs       []metric.Registration
 	regErrs    []string
 
-	iSync []func(context.Context, int64, attribute.Set)
-	fSync []func(context.Context, float64, attribute.Set)
+	iSync []func(context.Context, int64, int, int) // value, attribute set, spelling of the options
+	fSync []func(context.Context, float64, int, int)
 	iObs  []metric.Int64Observable
 	fObs  []metric.Float64Observable
 
+	sdefs    []sdef // every sync instrument of the case: the fixed ones, then the twins
+	odefs    []odef
+	scopes   []ScopeSpec    // scope table: "c08", "c08b", Case.Scopes...
+	alias    []int          // scope index -> first scope of the same identity
+	scopeIdx map[string]int // scopeID -> index
+
 	mp        *sdkmetric.MeterProvider
-	meters    [2]metric.Meter // obtained at first use
-	meter     metric.Meter    // scope 0; observables and callbacks live here
-	syncBr    []bracket       // creation bracket of each sync instrument
-	createdAt []int           // number of collections that preceded its creation (-1: not created)
-	obsBr     bracket         // creation bracket of the observable instruments
-	scopeAt   [2]int          // number of collections that preceded the first instrument of the scope (-1: none yet)
+	meters    []metric.Meter // per scope, obtained at first use
+	syncBr    []bracket      // creation bracket of each sync instrument
+	createdAt []int          // number of collections that preceded its creation (-1: not created)
+	obsBr     bracket        // creation bracket of the observable instruments
+	scopeAt   []int          // number of collections that preceded the first instrument of the scope (-1: none yet)
 	cycles    []*cycle
 	ambiguous bool // the serial order of some burst's outputs could not be told from their timestamps
 
@@ -298,7 +375,7 @@ func (w *world) instCallbackI(i int) metric.Int64Callback {
 		first := true
 		for _, e := range w.plan[i] {
 			if e.Via == 0 {
-				o.Observe(intValue(e.V, e.I)+int64(off), metric.WithAttributes(setPool[e.Set]...))
+				o.Observe(intValue(e.V, e.I)+int64(off), obsOpts(e.Set, e.Sp, false)...)
 				if first {
 					vk.Perturb(delay)
 					first = false
@@ -321,7 +398,7 @@ func (w *world) instCallbackF(i int) metric.Float64Callback {
 		first := true
 		for _, e := range w.plan[i] {
 			if e.Via == 0 {
-				o.Observe(float64(e.V)+float64(off), metric.WithAttributes(setPool[e.Set]...))
+				o.Observe(float64(e.V)+float64(off), obsOpts(e.Set, e.Sp, false)...)
 				if first {
 					vk.Perturb(delay)
 					first = false
@@ -344,15 +421,15 @@ func (w *world) multiCallback(j int) metric.Callback {
 			return errPlanned
 		}
 		first := true
-		for i, d := range obsDefs {
+		for i, d := range w.odefs {
 			for _, e := range w.plan[i] {
 				if e.Via != j+1 {
 					continue
 				}
 				if d.float {
-					o.ObserveFloat64(w.fObs[i], float64(e.V)+float64(off), metric.WithAttributes(setPool[e.Set]...))
+					o.ObserveFloat64(w.fObs[i], float64(e.V)+float64(off), obsOpts(e.Set, e.Sp, false)...)
 				} else {
-					o.ObserveInt64(w.iObs[i], intValue(e.V, e.I)+int64(off), metric.WithAttributes(setPool[e.Set]...))
+					o.ObserveInt64(w.iObs[i], intValue(e.V, e.I)+int64(off), obsOpts(e.Set, e.Sp, false)...)
 				}
 				if first {
 					vk.Perturb(delay)
@@ -371,9 +448,9 @@ func (w *world) multiCallback(j int) metric.Callback {
 // round-th invocation (round 1 outside bursts): a callback in mode 1 observes
 // nothing, one in mode 2 observes everything before it fails.
 func (w *world) observedNow(round int) (obs []map[int]num, stray, failed bool) {
-	obs = make([]map[int]num, len(obsDefs))
+	obs = make([]map[int]num, len(w.odefs))
 	off := num{i: int64(tri(round)), f: float64(tri(round))} // added on both sides; the instrument's type decides
-	for i, d := range obsDefs {
+	for i, d := range w.odefs {
 		obs[i] = map[int]num{}
 		if w.failMode[i] != 0 {
 			failed = true
@@ -388,7 +465,7 @@ func (w *world) observedNow(round int) (obs []map[int]num, stray, failed bool) {
 				if w.failMode[multiID(e.Via-1)] == 1 {
 					continue
 				}
-				if contains(w.c.Multi[e.Via-1], i) {
+				if w.listed(e.Via-1, i) {
 					obs[i][e.Set] = modelValue(e.V, e.I, d.float).add(off)
 				} else {
 					stray = true
@@ -420,6 +497,15 @@ func (w *world) fail(format string, a ...any) {
 func execute(c Case) *world {
 	ctx := context.Background()
 	w := &world{c: c}
+	w.sdefs, w.odefs = instruments(c)
+	w.scopes, w.alias = scopeTable(c)
+	w.scopeIdx = map[string]int{}
+	for i, sc := range w.scopes {
+		if w.alias[i] == i {
+			w.scopeIdx[scopeID(sc)] = i
+		}
+	}
+	w.meters = make([]metric.Meter, len(w.scopes))
 	if w.c.NSets > maxSets {
 		w.c.NSets = maxSets
 	}
@@ -427,11 +513,11 @@ func execute(c Case) *world {
 		w.c.Multi = w.c.Multi[:maxMulti]
 	}
 	w.failMode, w.failLeft, w.inv = map[int]int{}, map[int]int{}, map[int]int{}
-	w.plan = make([][]Obs, len(obsDefs))
+	w.plan = make([][]Obs, len(w.odefs))
 	w.registered = make([]bool, len(w.c.Multi))
 	w.regs = make([]metric.Registration, len(w.c.Multi))
 	newPending := func() []map[int][]num {
-		p := make([]map[int][]num, len(syncDefs))
+		p := make([]map[int][]num, len(w.sdefs))
 		for i := range p {
 			p[i] = map[int][]num{}
 		}
@@ -470,14 +556,17 @@ func execute(c Case) *world {
 	mp := sdkmetric.NewMeterProvider(opts...)
 	defer func() { _ = mp.Shutdown(ctx) }()
 	w.mp = mp
-	w.scopeAt = [2]int{-1, -1}
+	w.scopeAt = make([]int, len(w.scopes))
+	for i := range w.scopeAt {
+		w.scopeAt[i] = -1
+	}
 
 	// ---- sync instruments: up front unless the case lists them as late ----
-	w.iSync = make([]func(context.Context, int64, attribute.Set), len(syncDefs))
-	w.fSync = make([]func(context.Context, float64, attribute.Set), len(syncDefs))
-	w.syncBr = make([]bracket, len(syncDefs))
-	w.createdAt = make([]int, len(syncDefs))
-	for i := range syncDefs {
+	w.iSync = make([]func(context.Context, int64, int, int), len(w.sdefs))
+	w.fSync = make([]func(context.Context, float64, int, int), len(w.sdefs))
+	w.syncBr = make([]bracket, len(w.sdefs))
+	w.createdAt = make([]int, len(w.sdefs))
+	for i := range w.sdefs {
 		w.createdAt[i] = -1
 		if !contains(w.c.Late, i) {
 			w.createSync(i)
@@ -485,34 +574,20 @@ func execute(c Case) *world {
 	}
 
 	// ---- observable instruments: all up front, inside one bracket ----
-	w.iObs = make([]metric.Int64Observable, len(obsDefs))
-	w.fObs = make([]metric.Float64Observable, len(obsDefs))
+	w.iObs = make([]metric.Int64Observable, len(w.odefs))
+	w.fObs = make([]metric.Float64Observable, len(w.odefs))
 	w.obsBr.Before = time.Now()
-	w.meter = w.scopeMeter(0)
-	for i, d := range obsDefs {
-		var err error
-		switch {
-		case d.kind == oCounter && !d.float:
-			w.iObs[i], err = w.meter.Int64ObservableCounter(d.name, metric.WithInt64Callback(w.instCallbackI(i)))
-		case d.kind == oCounter:
-			w.fObs[i], err = w.meter.Float64ObservableCounter(d.name, metric.WithFloat64Callback(w.instCallbackF(i)))
-		case d.kind == oUpDown && !d.float:
-			w.iObs[i], err = w.meter.Int64ObservableUpDownCounter(d.name, metric.WithInt64Callback(w.instCallbackI(i)))
-		case d.kind == oUpDown:
-			w.fObs[i], err = w.meter.Float64ObservableUpDownCounter(d.name, metric.WithFloat64Callback(w.instCallbackF(i)))
-		case !d.float:
-			w.iObs[i], err = w.meter.Int64ObservableGauge(d.name, metric.WithInt64Callback(w.instCallbackI(i)))
-		default:
-			w.fObs[i], err = w.meter.Float64ObservableGauge(d.name, metric.WithFloat64Callback(w.instCallbackF(i)))
-		}
-		if err != nil {
-			w.fail("creating %s: %v", d.name, err)
+	order := seq(len(w.odefs))
+	if w.c.TwinsFirst {
+		order = append(order[len(obsDefs):], order[:len(obsDefs)]...)
+	}
+	for _, i := range order {
+		w.makeObs(i, w.scopeMeter(w.odefs[i].scope), true)
+		if sc := w.odefs[i].scope; w.scopeAt[sc] < 0 {
+			w.scopeAt[sc] = 0
 		}
 	}
 	w.obsBr.After = time.Now()
-	if w.scopeAt[0] < 0 {
-		w.scopeAt[0] = 0
-	}
 
 	// ---- the history ----
 	var deltaRM, cumRM metricdata.ResourceMetrics // the readers' own reused outputs
@@ -532,7 +607,7 @@ func execute(c Case) *world {
 		br.Before = time.Now()
 		err = r.Collect(ctx, rm)
 		br.After = time.Now()
-		sn = takeSnap(rm)
+		sn = w.takeSnap(rm)
 		if is != "fresh" {
 			rm = nil // will be overwritten; nothing to re-read later
 		}
@@ -545,22 +620,26 @@ func execute(c Case) *world {
 	for _, op := range steps {
 		switch op.K {
 		case "rec":
-			if op.Inst < 0 || op.Inst >= len(syncDefs) || !w.validSet(op.Set) {
+			if op.Inst < 0 || op.Inst >= len(w.sdefs) || !w.validSet(op.Set) {
 				continue
 			}
-			d := syncDefs[op.Inst]
+			d := w.sdefs[op.Inst]
 			if w.createdAt[op.Inst] < 0 {
 				w.createSync(op.Inst)
 			}
-			set := attribute.NewSet(setPool[op.Set]...)
+			if op.Again {
+				// the same instrument obtained once more (from the meter obtained
+				// once more): measurements through either handle are the instrument's
+				w.makeSync(op.Inst, w.freshMeter(d.scope))
+			}
 			if d.float {
-				w.fSync[op.Inst](ctx, float64(op.V), set)
+				w.fSync[op.Inst](ctx, float64(op.V), op.Set, op.Sp)
 			} else {
-				w.iSync[op.Inst](ctx, intValue(op.V, op.I), set)
+				w.iSync[op.Inst](ctx, intValue(op.V, op.I), op.Set, op.Sp)
 			}
 			w.pending[op.Inst][op.Set] = append(w.pending[op.Inst][op.Set], modelValue(op.V, op.I, d.float))
 		case "plan":
-			if op.Inst < 0 || op.Inst >= len(obsDefs) {
+			if op.Inst < 0 || op.Inst >= len(w.odefs) {
 				continue
 			}
 			w.plan[op.Inst] = w.sanitizePlan(op.Plan)
@@ -569,11 +648,18 @@ func execute(c Case) *world {
 				continue
 			}
 			var insts []metric.Observable
+			regMeter := w.scopeMeter(w.c.slotScope(op.CB, w.alias))
+			if op.Again {
+				regMeter = w.freshMeter(w.c.slotScope(op.CB, w.alias))
+			}
 			for _, i := range w.c.Multi[op.CB] {
-				if i < 0 || i >= len(obsDefs) {
+				if !w.listed(op.CB, i) { // no such instrument, or one of another meter
 					continue
 				}
-				if obsDefs[i].float {
+				if op.Again {
+					w.makeObs(i, regMeter, false)
+				}
+				if w.odefs[i].float {
 					insts = append(insts, w.fObs[i])
 				} else {
 					insts = append(insts, w.iObs[i])
@@ -582,7 +668,7 @@ func execute(c Case) *world {
 			if len(insts) == 0 {
 				continue
 			}
-			reg, err := w.meter.RegisterCallback(w.multiCallback(op.CB), insts...)
+			reg, err := regMeter.RegisterCallback(w.multiCallback(op.CB), insts...)
 			if err != nil {
 				w.fail("RegisterCallback slot %d: %v", op.CB, err)
 				continue
@@ -599,7 +685,7 @@ func execute(c Case) *world {
 		case "fail":
 			id := -1
 			switch {
-			case op.Via == 0 && op.Inst >= 0 && op.Inst < len(obsDefs):
+			case op.Via == 0 && op.Inst >= 0 && op.Inst < len(w.odefs):
 				id = op.Inst
 			case op.Via >= 1 && op.Via <= len(w.c.Multi):
 				id = multiID(op.Via - 1)
@@ -648,7 +734,7 @@ func execute(c Case) *world {
 				o.br.Before = time.Now()
 				o.err = r.Collect(ctx, o.rm)
 				o.br.After = time.Now()
-				o.sn = takeSnap(o.rm)
+				o.sn = w.takeSnap(o.rm)
 				return o
 			}
 			first := w.newCycle(1, 1) // carries the records and the other reader's collection
@@ -745,10 +831,10 @@ func execute(c Case) *world {
 	// Outputs handed out earlier, read again now that the history is over.
 	for _, cy := range w.cycles {
 		if cy.deltaRM != nil {
-			cy.DeltaLate = takeSnap(cy.deltaRM)
+			cy.DeltaLate = w.takeSnap(cy.deltaRM)
 		}
 		if cy.cumRM != nil {
-			cy.CumLate = takeSnap(cy.cumRM)
+			cy.CumLate = w.takeSnap(cy.cumRM)
 		}
 	}
 	for j, r := range w.regs {
@@ -759,75 +845,159 @@ func execute(c Case) *world {
 	return w
 }
 
-var scopeNames = [2]string{"c08", "c08b"}
+// listed: instrument i is one multi callback slot j is registered for (it is
+// in the slot's list and belongs to the slot's meter).
+func (w *world) listed(j, i int) bool {
+	return j >= 0 && j < len(w.c.Multi) && i >= 0 && i < len(w.odefs) && contains(w.c.Multi[j], i) &&
+		w.odefs[i].scope == w.c.slotScope(j, w.alias)
+}
 
 func (w *world) scopeMeter(scope int) metric.Meter {
+	scope = w.alias[scope]
 	if w.meters[scope] == nil {
-		w.meters[scope] = w.mp.Meter(scopeNames[scope])
+		w.meters[scope] = w.freshMeter(scope)
 	}
 	return w.meters[scope]
+}
+
+// freshMeter asks the provider for the scope's meter (once more).
+func (w *world) freshMeter(scope int) metric.Meter {
+	sc := w.scopes[w.alias[scope]]
+	var opts []metric.MeterOption
+	if sc.Version != "" {
+		opts = append(opts, metric.WithInstrumentationVersion(sc.Version))
+	}
+	if sc.Schema != "" {
+		opts = append(opts, metric.WithSchemaURL(sc.Schema))
+	}
+	if len(sc.Attrs) > 0 {
+		opts = append(opts, metric.WithInstrumentationAttributes(vk.ToAttrs(sc.Attrs)...))
+	}
+	return w.mp.Meter(sc.Name, opts...)
 }
 
 // createSync creates sync instrument i (its meter too, at first use of the
 // scope) and notes the wall-clock bracket and the position in the history.
 func (w *world) createSync(i int) {
-	d := syncDefs[i]
-	var hopts []metric.HistogramOption
-	if d.kind == kHist && d.bsrc == bAdvisory {
-		hopts = append(hopts, metric.WithExplicitBucketBoundaries(w.c.bounds(d.bidx)...))
-	}
-	var err error
+	d := w.sdefs[i]
 	w.syncBr[i].Before = time.Now()
-	m := w.scopeMeter(d.scope)
-	switch {
-	case d.kind == kCounter && !d.float:
-		var in metric.Int64Counter
-		in, err = m.Int64Counter(d.name)
-		w.iSync[i] = func(ctx context.Context, v int64, s attribute.Set) { in.Add(ctx, v, metric.WithAttributeSet(s)) }
-	case d.kind == kCounter:
-		var in metric.Float64Counter
-		in, err = m.Float64Counter(d.name)
-		w.fSync[i] = func(ctx context.Context, v float64, s attribute.Set) { in.Add(ctx, v, metric.WithAttributeSet(s)) }
-	case d.kind == kUpDown && !d.float:
-		var in metric.Int64UpDownCounter
-		in, err = m.Int64UpDownCounter(d.name)
-		w.iSync[i] = func(ctx context.Context, v int64, s attribute.Set) { in.Add(ctx, v, metric.WithAttributeSet(s)) }
-	case d.kind == kUpDown:
-		var in metric.Float64UpDownCounter
-		in, err = m.Float64UpDownCounter(d.name)
-		w.fSync[i] = func(ctx context.Context, v float64, s attribute.Set) { in.Add(ctx, v, metric.WithAttributeSet(s)) }
-	case (d.kind == kHist || d.kind == kExpo) && !d.float:
-		var in metric.Int64Histogram
-		io := make([]metric.Int64HistogramOption, len(hopts))
-		for k, o := range hopts {
-			io[k] = o
-		}
-		in, err = m.Int64Histogram(d.name, io...)
-		w.iSync[i] = func(ctx context.Context, v int64, s attribute.Set) { in.Record(ctx, v, metric.WithAttributeSet(s)) }
-	case d.kind == kHist || d.kind == kExpo:
-		var in metric.Float64Histogram
-		fo := make([]metric.Float64HistogramOption, len(hopts))
-		for k, o := range hopts {
-			fo[k] = o
-		}
-		in, err = m.Float64Histogram(d.name, fo...)
-		w.fSync[i] = func(ctx context.Context, v float64, s attribute.Set) { in.Record(ctx, v, metric.WithAttributeSet(s)) }
-	case d.kind == kGauge && !d.float:
-		var in metric.Int64Gauge
-		in, err = m.Int64Gauge(d.name)
-		w.iSync[i] = func(ctx context.Context, v int64, s attribute.Set) { in.Record(ctx, v, metric.WithAttributeSet(s)) }
-	default:
-		var in metric.Float64Gauge
-		in, err = m.Float64Gauge(d.name)
-		w.fSync[i] = func(ctx context.Context, v float64, s attribute.Set) { in.Record(ctx, v, metric.WithAttributeSet(s)) }
-	}
+	w.makeSync(i, w.scopeMeter(d.scope))
 	w.syncBr[i].After = time.Now()
 	w.createdAt[i] = len(w.cycles)
 	if w.scopeAt[d.scope] < 0 {
 		w.scopeAt[d.scope] = len(w.cycles)
 	}
+}
+
+// makeObs obtains observable instrument i from meter m - with its own
+// callback when it is created, without one when it is obtained once more
+// ("only the first set of callbacks provided are used") - and makes it the
+// handle that callbacks observe and are registered with.
+func (w *world) makeObs(i int, m metric.Meter, own bool) {
+	d := w.odefs[i]
+	var err error
+	io := []metric.Int64ObservableOption{metric.WithUnit(d.unit), metric.WithDescription(d.desc)}
+	fo := []metric.Float64ObservableOption{metric.WithUnit(d.unit), metric.WithDescription(d.desc)}
+	if own {
+		io = append(io, metric.WithInt64Callback(w.instCallbackI(i)))
+		fo = append(fo, metric.WithFloat64Callback(w.instCallbackF(i)))
+	}
+	switch {
+	case d.kind == oCounter && !d.float:
+		opts := make([]metric.Int64ObservableCounterOption, len(io))
+		for k, o := range io {
+			opts[k] = o
+		}
+		w.iObs[i], err = m.Int64ObservableCounter(d.name, opts...)
+	case d.kind == oCounter:
+		opts := make([]metric.Float64ObservableCounterOption, len(fo))
+		for k, o := range fo {
+			opts[k] = o
+		}
+		w.fObs[i], err = m.Float64ObservableCounter(d.name, opts...)
+	case d.kind == oUpDown && !d.float:
+		opts := make([]metric.Int64ObservableUpDownCounterOption, len(io))
+		for k, o := range io {
+			opts[k] = o
+		}
+		w.iObs[i], err = m.Int64ObservableUpDownCounter(d.name, opts...)
+	case d.kind == oUpDown:
+		opts := make([]metric.Float64ObservableUpDownCounterOption, len(fo))
+		for k, o := range fo {
+			opts[k] = o
+		}
+		w.fObs[i], err = m.Float64ObservableUpDownCounter(d.name, opts...)
+	case !d.float:
+		opts := make([]metric.Int64ObservableGaugeOption, len(io))
+		for k, o := range io {
+			opts[k] = o
+		}
+		w.iObs[i], err = m.Int64ObservableGauge(d.name, opts...)
+	default:
+		opts := make([]metric.Float64ObservableGaugeOption, len(fo))
+		for k, o := range fo {
+			opts[k] = o
+		}
+		w.fObs[i], err = m.Float64ObservableGauge(d.name, opts...)
+	}
 	if err != nil {
-		w.fail("creating %s: %v", d.name, err)
+		w.fail("creating %s: %v", d.key, err)
+	}
+}
+
+// makeSync obtains sync instrument i from meter m and makes it the handle the
+// history records through.
+func (w *world) makeSync(i int, m metric.Meter) {
+	d := w.sdefs[i]
+	var hopts []metric.HistogramOption
+	if d.kind == kHist && d.bsrc == bAdvisory {
+		hopts = append(hopts, metric.WithExplicitBucketBoundaries(w.c.bounds(d.bidx)...))
+	}
+	var err error
+	switch {
+	case d.kind == kCounter && !d.float:
+		var in metric.Int64Counter
+		in, err = m.Int64Counter(d.name, metric.WithUnit(d.unit), metric.WithDescription(d.desc))
+		w.iSync[i] = func(ctx context.Context, v int64, s, sp int) { in.Add(ctx, v, addOpts(s, sp, true)...) }
+	case d.kind == kCounter:
+		var in metric.Float64Counter
+		in, err = m.Float64Counter(d.name, metric.WithUnit(d.unit), metric.WithDescription(d.desc))
+		w.fSync[i] = func(ctx context.Context, v float64, s, sp int) { in.Add(ctx, v, addOpts(s, sp, true)...) }
+	case d.kind == kUpDown && !d.float:
+		var in metric.Int64UpDownCounter
+		in, err = m.Int64UpDownCounter(d.name, metric.WithUnit(d.unit), metric.WithDescription(d.desc))
+		w.iSync[i] = func(ctx context.Context, v int64, s, sp int) { in.Add(ctx, v, addOpts(s, sp, true)...) }
+	case d.kind == kUpDown:
+		var in metric.Float64UpDownCounter
+		in, err = m.Float64UpDownCounter(d.name, metric.WithUnit(d.unit), metric.WithDescription(d.desc))
+		w.fSync[i] = func(ctx context.Context, v float64, s, sp int) { in.Add(ctx, v, addOpts(s, sp, true)...) }
+	case (d.kind == kHist || d.kind == kExpo) && !d.float:
+		var in metric.Int64Histogram
+		io := []metric.Int64HistogramOption{metric.WithUnit(d.unit), metric.WithDescription(d.desc)}
+		for _, o := range hopts {
+			io = append(io, o)
+		}
+		in, err = m.Int64Histogram(d.name, io...)
+		w.iSync[i] = func(ctx context.Context, v int64, s, sp int) { in.Record(ctx, v, recOpts(s, sp, true)...) }
+	case d.kind == kHist || d.kind == kExpo:
+		var in metric.Float64Histogram
+		fo := []metric.Float64HistogramOption{metric.WithUnit(d.unit), metric.WithDescription(d.desc)}
+		for _, o := range hopts {
+			fo = append(fo, o)
+		}
+		in, err = m.Float64Histogram(d.name, fo...)
+		w.fSync[i] = func(ctx context.Context, v float64, s, sp int) { in.Record(ctx, v, recOpts(s, sp, true)...) }
+	case d.kind == kGauge && !d.float:
+		var in metric.Int64Gauge
+		in, err = m.Int64Gauge(d.name, metric.WithUnit(d.unit), metric.WithDescription(d.desc))
+		w.iSync[i] = func(ctx context.Context, v int64, s, sp int) { in.Record(ctx, v, recOpts(s, sp, true)...) }
+	default:
+		var in metric.Float64Gauge
+		in, err = m.Float64Gauge(d.name, metric.WithUnit(d.unit), metric.WithDescription(d.desc))
+		w.fSync[i] = func(ctx context.Context, v float64, s, sp int) { in.Record(ctx, v, recOpts(s, sp, true)...) }
+	}
+	if err != nil {
+		w.fail("creating %s: %v", d.key, err)
 	}
 }
 
